@@ -198,6 +198,10 @@ where
 }
 
 fn enc_of<T: CborSerializable + Clone>(cx: &Cx, l: &mut Local, m: &T) -> Option<Vec<u8>> {
+    if !cx.exact {
+        // panic detection only: the expected bytes are not needed (keeps the driver linear)
+        return Some(vec![]);
+    }
     match catch(|| m.clone().to_vec()) {
         Ok(Ok(b)) => Some(b),
         Ok(Err(_)) => None, // value has no encoding: outside the domain of the structure properties
@@ -286,9 +290,13 @@ pub fn sign(cx: &Cx, m: &CoseSign, aads: &[&[u8]], detached: &[&[u8]], l: &mut L
 /// the message's protected header as body and the counter-signature's as sign_protected.
 pub fn counter_signatures(cx: &Cx, body: &[u8], prot: &ProtectedHeader, unprot: &Header, aads: &[&[u8]], payload: &[u8], l: &mut Local) {
     for cs in prot.header.counter_signatures.iter().chain(unprot.counter_signatures.iter()) {
-        let sp = match protected_bytes_of(&cs.protected) {
-            Some(b) => b,
-            None => continue,
+        let sp = if !cx.exact {
+            vec![]
+        } else {
+            match protected_bytes_of(&cs.protected) {
+                Some(b) => b,
+                None => continue,
+            }
         };
         for aad in aads {
             let want = sig_structure("CounterSignature", body, Some(&sp), aad, payload);
